@@ -314,7 +314,9 @@ def c14(ctx, e):
         rec = e.backend.ops.get(oid)
         if not rec:
             continue
-        starts = [u for u in e.backend.stream if u["id"] == oid and u["action"] == "START"]
+        # (by id, and by the name the program gave the call: a START for the same call under a DIFFERENT id is the same defect)
+        starts = [u for u in e.backend.stream if u["action"] == "START" and (u["id"] == oid or
+                  (u.get("name") == path and u["type"] in ("CALLBACK", "CHAINED_INVOKE")))]
         if len(starts) > 1:
             ctx.violation("started-more-than-once", f"{n['k']} at {path} sent START {len(starts)} times", scen_of(e))
             return
@@ -561,8 +563,9 @@ def c16(ctx, e):
             continue
         payload = rec.get("_result") or ""
         rc = bool(rec.get("_replay_children"))
-        if len(payload) > LIMIT:
-            ctx.violation("oversized-payload-recorded", f"{path}: {len(payload)} characters recorded for a context result (limit {LIMIT})",
+        nbytes = len(payload.encode("utf-8")) if isinstance(payload, str) else len(payload)
+        if nbytes > LIMIT:
+            ctx.violation("oversized-payload-recorded", f"{path}: {nbytes} bytes recorded for a context result (limit {LIMIT})",
                           scen_of(e))
             return
         dl = e.rec.delivered.get(path, [])
